@@ -169,16 +169,13 @@ def step (toks : List String) : String :=
           -- searcher over the match lists of its clauses; the two answers must coincide
           let viaMachine : Option (List (Option Nat)) := match q with
             | .bool m s n Option.none =>
-              let must := match m, s with
-                | Option.none, Option.none => some (docs.map (·.iid))     -- only must_not: bleve adds match-all
-                | _, _ => m.map (fun x => den x docs)
-              let min0 := match s with
-                | some (.disj mn _) => mn == 0
-                | _ => true
+              let parts := boolParts m s n docs
               let ops := calls.map (fun c => match c with
                 | .next => Bleve.BoolSearcher.Op.next | .adv t => Bleve.BoolSearcher.Op.adv t)
-              some (Bleve.BoolSearcher.runImpl (fun _ c => c)
-                (Bleve.BoolSearcher.init must (s.map (fun x => den x docs)) (n.map (fun x => den x docs)) min0) ops)
+              if m.isSome || s.isSome || n.isSome then
+                some (Bleve.BoolSearcher.runImpl (fun _ c => c)
+                  (Bleve.BoolSearcher.init parts.1 parts.2.1 parts.2.2.1 parts.2.2.2) ops)
+              else Option.none
             | _ => Option.none
           let render := fun (l : List (Option Nat)) => joinWith "," (l.map (fun o => match o with
             | some i => toString i | none => "nil"))
